@@ -21,6 +21,7 @@ device specification (C01).  Clauses of the property:
 import AnnetModel.Lemmas.AclDiff
 import AnnetModel.Lemmas.Provenance
 import AnnetModel.Lemmas.Pipeline
+import AnnetModel.Lemmas.OutsideFlat
 
 /-! OBLIGATIONS
 Annet.AclDiff.C02_commands_address_covered
@@ -35,6 +36,9 @@ Annet.AclDiff.C02_paths_covered_false
 Annet.AclDiff.C02_no_generator_acl_no_patch
 Annet.AclDiff.C02_empty_filter_no_patch
 Annet.AclDiff.C02_nothing_in_nothing_out
+Annet.AclDiff.C02_uncovered_line_untouched_flat
+Annet.AclDiff.C02_uncovered_line_untouched_device
+Annet.AclDiff.C02_uncovered_line_untouched_instance
 -/
 
 namespace Annet.AclDiff
@@ -135,6 +139,52 @@ theorem C02_nothing_in_nothing_out (lg : Patch.LogicFn) (pv : Rules.Vendor) (av 
     ∃ res, deviceModeAcl lg pv av acl rules ordering (.mk []) (.mk []) = .ok res ∧ res.diff = [] ∧ res.patch.items = [] := by
   obtain ⟨res, h⟩ := Pipeline.deviceModeAcl_empty_ok lg pv av acl rules ordering
   exact ⟨res, h, Pipeline.deviceModeAcl_empty lg pv av acl rules ordering res h⟩
+
+
+/-! ### clause (b), end to end at the top level (`Lemmas/OutsideFlat.lean`) -/
+
+/-- (b), from the two configurations to the device: if no line of `old` or `new` that the ACL covers addresses slot `s`
+(as written or through its negated form: `AclSlotClosed`, the hypothesis finding F02b shows to be necessary), then executing
+the leaf commands — and also the rows of all top-level items — of the patch `_diff_and_patch` builds leaves the line that
+holds `s` exactly as it was, whatever the device holds.  `ReverseInSlot`: the removal command of a rule, read back by the
+device, deletes that rule's slot (derived from `Converge.CmdsOK`; proved for the example rulebook). -/
+theorem C02_uncovered_line_untouched_flat (pv : Rules.Vendor) (av : Acl.Vendor) (acl : Acl.Rules) (rules : Rules.PRules)
+    (ordering : List Rules.ORule) (old new : Cfg) (res : Api.Result) (env : Device.Env) (s : Device.Abs.Slot)
+    (h : deviceModeAcl Patch.runLogic pv av acl rules ordering old new = .ok res)
+    (hrev : OutsideFlat.ReverseInSlot pv env rules) (hraw : OutsideFlat.RawDetRow rules)
+    (hcommit : OutsideFlat.NoForceCommit rules ∨ OutsideFlat.addresses env rules "commit" s = false)
+    (hc : OutsideFlat.AclSlotClosed av acl env rules old new s)
+    (kids : List (String × Cfg)) :
+    ((OutsideFlat.leafCmds res.patch).foldl (fun k c => Device.execLeaf env rules c k) kids).filter
+        (fun e => Device.Abs.slotOf rules e.1 == some s) =
+      kids.filter (fun e => Device.Abs.slotOf rules e.1 == some s) ∧
+    ((OutsideFlat.topCmds res.patch).foldl (fun k c => Device.execLeaf env rules c k) kids).filter
+        (fun e => Device.Abs.slotOf rules e.1 == some s) =
+      kids.filter (fun e => Device.Abs.slotOf rules e.1 == some s) :=
+  OutsideFlat.outside_flat_of_closed pv av acl rules ordering old new res env s h hrev hraw hcommit hc kids
+
+/-- The same for the device executor of C01 (`Device.applyCmds` over the linearised patch), rulebooks without `%rewrite`
+rules at this level. -/
+theorem C02_uncovered_line_untouched_device (pv : Rules.Vendor) (av : Acl.Vendor) (acl : Acl.Rules) (rules : Rules.PRules)
+    (ordering : List Rules.ORule) (old new : Cfg) (res : Api.Result) (env : Device.Env) (s : Device.Abs.Slot)
+    (h : deviceModeAcl Patch.runLogic pv av acl rules ordering old new = .ok res)
+    (hrev : OutsideFlat.ReverseInSlot pv env rules) (hraw : OutsideFlat.RawDetRow rules) (hrw : OutsideFlat.NoRewrite rules)
+    (hcommit : OutsideFlat.NoForceCommit rules ∨ OutsideFlat.addresses env rules "commit" s = false)
+    (hs : ∀ e ∈ res.diff, OutsideFlat.addresses env rules e.row s = false) (dev : Cfg) :
+    (Device.applyCmds env rules (Device.Abs.flatPaths res.patch) dev).kids.filter
+        (fun e => Device.Abs.slotOf rules e.1 == some s) =
+      dev.kids.filter (fun e => Device.Abs.slotOf rules e.1 == some s) :=
+  OutsideFlat.outside_flat_applyCmds pv av acl rules ordering old new res env s h hrev hraw hrw hcommit hs dev
+
+/-- Non-vacuity: rules `user *`, `ntp *`, ACL `user *` only, old = {user alice, ntp 1.1.1.1}, new = {user bob, ntp 2.2.2.2}:
+the pipeline succeeds, and executing its patch leaves `ntp 1.1.1.1` in place although new does not hold it. -/
+theorem C02_uncovered_line_untouched_instance :
+    ∃ res, deviceModeAcl Patch.runLogic OutsideFlat.Example.v OutsideFlat.Example.av OutsideFlat.Example.acl
+        OutsideFlat.Example.rules [] OutsideFlat.Example.old OutsideFlat.Example.new = .ok res ∧
+      (((OutsideFlat.leafCmds res.patch).foldl (fun k c => Device.execLeaf OutsideFlat.Example.env OutsideFlat.Example.rules c k)
+          OutsideFlat.Example.old.kids).filter
+        (fun e => Device.Abs.slotOf OutsideFlat.Example.rules e.1 == some OutsideFlat.Example.s)).map (·.1) = ["ntp 1.1.1.1"] :=
+  OutsideFlat.Example.outside_flat_instance
 
 
 end Annet.AclDiff
